@@ -1,6 +1,7 @@
 import HabuVerif.Proofs.C16Lines
 import HabuVerif.Props.C15
 import HabuVerif.Proofs.C16Line25b
+import HabuVerif.Proofs.Frame
 /-!
 # C16 — Returns respond to input changes the way tax law requires
 
@@ -348,6 +349,100 @@ theorem float_sum_lines_2023 :
   ⟨⟨rfl, ⟨rfl, rfl⟩, rfl, by decide, by decide⟩, ⟨rfl, ⟨rfl, rfl⟩, rfl, by decide, by decide⟩,
    ⟨rfl, ⟨rfl, rfl⟩, rfl, by decide, by decide⟩⟩
 
+/-! ## one-step independence: what the payment and tax lines can read at all
+
+`Proofs/Frame.lean` (`line_frame`): a line outcome is a function of the names its syntactic read sets
+describe.  For the lines below the read sets of the REGENERATED programs are lists of literal keys (checked by
+the kernel on every run), so each of them is unchanged by ANY change of the stores that leaves the listed
+names alone — in particular by any change of a withholding box of any payer form.  (Whole-return
+independence, through the lines these read, is decided on real solved returns.) -/
+
+/-- the read sets of line `lname` of the instance-less form `fname` are exactly the literal keys `vn` / `inn` -/
+structure ReadsOnly (y : YearDecl) (c : ClassDecl) (l : LineDecl) (fname lname : String)
+    (vn inn : List String) : Prop where
+  cname : c.name = fname
+  sem : (mkCat y).sem (fname ++ "." ++ lname) = evalLine y c none l
+  rv : refsV l = vn.map fun s => [Piece.lit s]
+  ri : refsI l = inn.map fun s => [Piece.lit s]
+
+/-- the full name a literal key denotes, seen from form `fname` -/
+def litName (fname s : String) : String :=
+  if s.toList.contains '.' then s else fname ++ "." ++ s
+
+theorem names_lit {form s n : String} (h : KeyPat.Names form none [Piece.lit s] n) : n = litName form s := by
+  obtain ⟨k, ⟨a, b, hk, ha, hb⟩, hn⟩ := h
+  have ha' : a = s := ha
+  have hb' : b = "" := hb
+  subst ha' hb'
+  have : k = a := by rw [hk]; exact String.append_empty
+  subst this
+  exact hn
+
+/-- **such a line depends only on the listed names** -/
+theorem reads_only_frame {y : YearDecl} {c : ClassDecl} {l : LineDecl} {fname lname : String}
+    {vn inn : List String} (h : ReadsOnly y c l fname lname vn inn)
+    (vs vs' : String → Option Val) (is is' : String → InpRes Val) (fs : String → Bool)
+    (hv : ∀ s ∈ vn, vs (litName fname s) = vs' (litName fname s))
+    (hi : ∀ s ∈ inn, is (litName fname s) = is' (litName fname s)) :
+    run vs is fs ((mkCat y).sem (fname ++ "." ++ lname)) =
+      run vs' is' fs ((mkCat y).sem (fname ++ "." ++ lname)) := by
+  rw [h.sem]
+  refine line_frame y c none l vs vs' is is' fs ?_ ?_
+  · rintro n ⟨p, hp, hn⟩
+    rw [h.rv, List.mem_map] at hp
+    obtain ⟨s, hs, rfl⟩ := hp
+    rw [h.cname] at hn
+    rw [names_lit hn]; exact hv s hs
+  · rintro n ⟨p, hp, hn⟩
+    rw [h.ri, List.mem_map] at hp
+    obtain ⟨s, hs, rfl⟩ := hp
+    rw [h.cname] at hn
+    rw [names_lit hn]; exact hi s hs
+
+/-- the regenerated Form 1040 lines 24, 25d, 26, 32, 33 read only these names (kernel-checked each run) -/
+theorem reads_only_2021 :
+    ReadsOnly year2021 Y2021.c_1040 (lineOf Y2021.c_1040 "24") "1040" "24" ["22", "23"] [] ∧
+    ReadsOnly year2021 Y2021.c_1040 (lineOf Y2021.c_1040 "25d") "1040" "25d" ["25a", "25b", "25c"] [] ∧
+    ReadsOnly year2021 Y2021.c_1040 (lineOf Y2021.c_1040 "26") "1040" "26" [] ["estimated_tax_payments"] ∧
+    ReadsOnly year2021 Y2021.c_1040 (lineOf Y2021.c_1040 "32") "1040" "32" ["27a", "28", "29", "30", "31"] [] ∧
+    ReadsOnly year2021 Y2021.c_1040 (lineOf Y2021.c_1040 "33") "1040" "33" ["25d", "26", "32"] [] :=
+  ⟨⟨rfl, rfl, by decide +kernel, by decide +kernel⟩, ⟨rfl, rfl, by decide +kernel, by decide +kernel⟩,
+   ⟨rfl, rfl, by decide +kernel, by decide +kernel⟩, ⟨rfl, rfl, by decide +kernel, by decide +kernel⟩,
+   ⟨rfl, rfl, by decide +kernel, by decide +kernel⟩⟩
+theorem reads_only_2022 :
+    ReadsOnly year2022 Y2022.c_1040 (lineOf Y2022.c_1040 "24") "1040" "24" ["22", "23"] [] ∧
+    ReadsOnly year2022 Y2022.c_1040 (lineOf Y2022.c_1040 "25d") "1040" "25d" ["25a", "25b", "25c"] [] ∧
+    ReadsOnly year2022 Y2022.c_1040 (lineOf Y2022.c_1040 "26") "1040" "26" [] ["estimated_tax_payments"] ∧
+    ReadsOnly year2022 Y2022.c_1040 (lineOf Y2022.c_1040 "32") "1040" "32" ["27", "28", "29", "31"] [] ∧
+    ReadsOnly year2022 Y2022.c_1040 (lineOf Y2022.c_1040 "33") "1040" "33" ["25d", "26", "32"] [] :=
+  ⟨⟨rfl, rfl, by decide +kernel, by decide +kernel⟩, ⟨rfl, rfl, by decide +kernel, by decide +kernel⟩,
+   ⟨rfl, rfl, by decide +kernel, by decide +kernel⟩, ⟨rfl, rfl, by decide +kernel, by decide +kernel⟩,
+   ⟨rfl, rfl, by decide +kernel, by decide +kernel⟩⟩
+theorem reads_only_2023 :
+    ReadsOnly year2023 Y2023.c_1040 (lineOf Y2023.c_1040 "24") "1040" "24" ["22", "23"] [] ∧
+    ReadsOnly year2023 Y2023.c_1040 (lineOf Y2023.c_1040 "25d") "1040" "25d" ["25a", "25b", "25c"] [] ∧
+    ReadsOnly year2023 Y2023.c_1040 (lineOf Y2023.c_1040 "26") "1040" "26" [] ["estimated_tax_payments"] ∧
+    ReadsOnly year2023 Y2023.c_1040 (lineOf Y2023.c_1040 "32") "1040" "32" ["27", "28", "29", "31"] [] ∧
+    ReadsOnly year2023 Y2023.c_1040 (lineOf Y2023.c_1040 "33") "1040" "33" ["25d", "26", "32"] [] :=
+  ⟨⟨rfl, rfl, by decide +kernel, by decide +kernel⟩, ⟨rfl, rfl, by decide +kernel, by decide +kernel⟩,
+   ⟨rfl, rfl, by decide +kernel, by decide +kernel⟩, ⟨rfl, rfl, by decide +kernel, by decide +kernel⟩,
+   ⟨rfl, rfl, by decide +kernel, by decide +kernel⟩⟩
+
+/-- **Line 24 (total tax) of the 2023 return is unchanged by any change of the stores that keeps lines 22 and
+23** — e.g. by changing any withholding box (instance of `reads_only_frame`; the premises are satisfiable:
+the two stores below differ at a W-2 box) -/
+theorem total_tax_ignores_everything_but_22_23_2023
+    (vs vs' : String → Option Val) (is is' : String → InpRes Val) (fs : String → Bool)
+    (h22 : vs "1040.22" = vs' "1040.22") (h23 : vs "1040.23" = vs' "1040.23") :
+    run vs is fs ((mkCat year2023).sem "1040.24") = run vs' is' fs ((mkCat year2023).sem "1040.24") := by
+  refine reads_only_frame reads_only_2023.1 vs vs' is is' fs ?_ ?_
+  · intro s hs
+    simp only [List.mem_cons, List.mem_nil_iff, or_false] at hs
+    rcases hs with rfl | rfl
+    · exact h22
+    · exact h23
+  · intro s hs; cases hs
+
 end HabuVerif.C16
 
 #print axioms HabuVerif.C16.shapes_2021
@@ -363,6 +458,11 @@ end HabuVerif.C16
 #print axioms HabuVerif.C16.float_sum_lines_2021
 #print axioms HabuVerif.C16.float_sum_lines_2022
 #print axioms HabuVerif.C16.float_sum_lines_2023
+#print axioms HabuVerif.C16.reads_only_frame
+#print axioms HabuVerif.C16.reads_only_2021
+#print axioms HabuVerif.C16.reads_only_2022
+#print axioms HabuVerif.C16.reads_only_2023
+#print axioms HabuVerif.C16.total_tax_ignores_everything_but_22_23_2023
 
 /-! ## Form 1040 line 25b (tax withheld on Forms 1099), `Proofs/C16Line25b.lean`
 
